@@ -15,3 +15,5 @@ func stopMetadataCleanup(t *oidc.TraefikOidc) bool { t.VerifStopMetadataCleanup(
 func housekeeping(t *oidc.TraefikOidc) bool { t.VerifHousekeeping(); return true }
 
 func endpointsOf(t *oidc.TraefikOidc) map[string]string { return t.VerifEndpoints() }
+
+func deriveBlockKeyOf(key string) []byte { return oidc.VerifDeriveBlockKey(key) }
